@@ -251,6 +251,18 @@ def schemes(draw, *, labels="neutral", allow_full=True, max_datasets=4, features
         "clp_link_tolerance": 0.0,
         "clp_link_method": "nearest",
     }
+    range_items = bool(penalties) or any(w.get("global_interval") is not None for w in weights)
+    if not range_items and draw(st.integers(0, 3)) == 0:
+        # global axes as instruments deliver them: descending (wavenumbers), or in acquisition order.  Items that act on index
+        # *ranges* of the global axis (penalty areas, weight intervals) are kept to ascending axes - what a range means on an
+        # unsorted axis is not stated; constraints and relations act by value.
+        kind = draw(st.sampled_from(["descending", "first_descending", "shuffled"]))
+        for i, d in enumerate(datasets):
+            if kind == "descending" or (kind == "first_descending" and i == 0):
+                d["global_axis"] = list(d["global_axis"])[::-1]
+            elif kind == "shuffled":
+                d["global_axis"] = list(draw(st.permutations(list(d["global_axis"]))))
+        case["global_axis_order"] = kind
     if link_tolerance and draw(st.booleans()):
         # exactly representable tolerances against grid spacings 0.5 / 1 / 1.5 / 2 (sharp decisions), all methods
         case["clp_link_tolerance"] = draw(st.sampled_from([0.25, 0.5, 0.75, 1.0, 1.5]))
